@@ -713,6 +713,13 @@ impl ExecutionState {
                 return true;
             }
 
+            // The execution is over and its tasks are being torn down. A drop handler that reaches a
+            // scheduling point here (e.g. a lock guard held by a task that never finished) must neither
+            // invoke the scheduler nor try to suspend a task that is being unwound.
+            if state.in_cleanup {
+                return false;
+            }
+
             debug_assert!(
                 matches!(state.current_task, ScheduledTask::Some(_) | ScheduledTask::Finished)
                     && state.next_task == ScheduledTask::None,
